@@ -64,6 +64,12 @@ def menu():
     # a chunked urlencoded form (no Content-Length) read through request.forms
     for x in APPS:
         m.append(('serve', x, 'cform', None))
+    # every application is asked for the same host name (each maps it to its own tenant)
+    for x in APPS:
+        m.append(('serve', x, 'dm', None))
+    # a route hook of X lets Y serve a request before X's handler runs
+    for x, y in (('A', 'B'), ('B', 'A'), ('D', 'A')):
+        m.append(('serve', x, 'hookcall', y))
     # a handler that reads its body before and after another application served a request with a body
     for x, y in (('A', 'B'), ('B', 'D'), ('D', 'A'), ('A', None)):
         m.append(('serve', x, 'pbody', y))
@@ -92,8 +98,12 @@ class World:
     def __init__(self):
         self.om = sut.load(fresh=True)
         om = self.om
-        self.apps = {'A': om.Ombott({'max_body_size': 8}), 'B': om.Ombott({'max_body_size': 8}), 'D': om.default_app()}
-        self.apps['D'].setup({'max_body_size': 8})
+        # every application maps the host t.example to a tenant prefix of its own; bodies above 4 bytes go to a temporary file
+        def cfg(name):
+            return {'max_body_size': 8, 'max_memfile_size': 4, 'domain_map': lambda host: ('t' + name.lower()) if host == 't.example' else None}
+        self.apps = {'A': om.Ombott(cfg('A')), 'B': om.Ombott(cfg('B')), 'D': om.default_app()}
+        self.apps['D'].setup(cfg('D'))
+        self.hook_pending = {}
         self.obs = []          # (app name, request id, tag, observation)
         self.served = []       # application names in the order their requests started
         self.hooklog = []      # names logged by the before_request hook each application registered for itself
@@ -154,6 +164,14 @@ class World:
             b2 = app.request.body.read()
             return b1 + b'|' + inner + b'|' + b2
         app.route('/pb/<rid>', 'POST', pbody)
+        app.route('/t%s/dm' % name.lower(), 'GET', lambda: 'tenant of ' + name)
+
+        def route_hook(prefix):
+            # a route hook that lets another application serve a request of its own (an internal sub-request)
+            y = w.hook_pending.pop(name, None)
+            if y:
+                w.request(y, None)
+        app.on_route('/h', route_hook)
         app.add_hook('before_request', lambda: w.hooklog.append(name))
 
         def form(rid):
@@ -186,12 +204,14 @@ class World:
         self.served.append(name)
         if kind != 'plain':
             h = {'Accept': 'application/json'} if kind == 'badj' else {}
-            if kind == 'small':
+            if kind == 'dm':
+                env = wsgi.environ('GET', '/dm', qs='who=' + name, headers={'Host': 't.example'})
+            elif kind == 'small':
                 env = wsgi.environ('POST', f'/b/{rid}', qs='who=' + name, body=b'in' + name.encode() + rid.encode(), headers=h)
             elif kind == 'pbody':
                 if op:
                     self.pending[(name, rid)] = op
-                env = wsgi.environ('POST', f'/pb/{rid}', qs='who=' + name, body=b'my' + name.encode() + rid.encode(), headers=h)
+                env = wsgi.environ('POST', f'/pb/{rid}', qs='who=' + name, body=b'body' + name.encode() + rid.encode(), headers=h)
             elif kind == 'cform':
                 fb = b's=%s%s' % (name.encode(), rid.encode())          # within max_body_size
                 raw = b'%x\r\n%s\r\n0\r\n\r\n' % (len(fb), fb)
@@ -200,7 +220,7 @@ class World:
                 # a well-formed chunked body of the application's own letter, in two chunks of app-specific sizes
                 a, b = {'A': (3, 2), 'B': (1, 6), 'D': (2, 2)}[name]
                 ch = name.lower().encode()
-                raw = b'%x\r\n%s\r\n%x;ext=1\r\n%s\r\n0\r\n\r\n' % (a, ch * a, b, ch * b)
+                raw = b'%x\r\n%s\r\n%x\r\n%s\r\n0\r\n\r\n' % (a, ch * a, b, ch * b)      # (size lines fit max_memfile_size=4)
                 env = wsgi.environ('POST', f'/b/{rid}', qs='who=' + name, body=raw, chunked=True, headers=h)
             elif kind == 'big':
                 env = wsgi.environ('POST', f'/b/{rid}', qs='who=' + name * (1 + self.counter % 3), body=b'0123456789abcdef', headers=h)
@@ -236,6 +256,11 @@ class World:
             return self.request(x, None, n)
         if n == 'pbody':
             return self.request(x, ('pbody', y), 'pbody')
+        if n == 'dm':
+            return self.request(x, None, 'dm')
+        if n == 'hookcall':
+            self.hook_pending[x] = y
+            return self.request(x, None)
         if kind == 'outside':
             # between requests: copying the request object of an idle application, then looking at it again
             app = self.apps[x]
@@ -309,8 +334,15 @@ def run_history(hist):
                 exp = ('303 See Other', (('X-App', name + rid), ('Location', f'http://{name.lower()}.test/next/{rid}'), ('Content-Length', '0'),
                                          ('Content-Type', 'text/html; charset=UTF-8'), ('Set-Cookie', f'c{name}={rid}')), b'')
             else:
+                if k == 'dm':
+                    if resp[0] != '200 OK' or resp[2] != ('tenant of ' + name).encode():
+                        v = ('foreign-tenant', f'application {name} asked for host t.example answered {resp[0]} {resp[2][:60]!r}; it maps that host to its own tenant')
+                        break
+                    continue
+                if k == 'hookcall':
+                    k = 'none'
                 if k == 'pbody':
-                    mine = b'my' + name.encode() + rid.encode()
+                    mine = b'body' + name.encode() + rid.encode()
                     if resp[0] != '200 OK' or not (resp[2].startswith(mine + b'|') and resp[2].endswith(b'|' + mine)):
                         v = ('body-changed', f'application {name}, request {rid}: the handler read its body before and after a nested request of another '
                                              f'application; it saw {resp[2]!r} (its body is {mine!r}), status {resp[0]}')
